@@ -206,15 +206,30 @@ def memo_spaces(rep, M, rid):
         if isinstance(e, ast.Attribute) and isinstance(e.value, ast.Name) and e.value.id == "self":
             a = attr_space(e.attr)
             return a[0] if a else None
+        if isinstance(e, ast.Subscript):
+            # primitive array indexed by a dataset map: the result is over the atoms the map is defined on
+            idx = e.slice
+            if isinstance(idx, ast.Name) and idx.id in env.get("#maps", {}):
+                return env["#maps"][idx.id]
+            txt = norm(idx)
+            if txt.endswith("std_mapping_to_primitive"):
+                return "C"
+            if txt.endswith("mapping_to_primitive"):
+                return "O"
         return None
     n_assign = 0
     for fname, f in meth.items():
         env = {}
+        multi = {}      # local -> set of spaces over all its definitions (branches): a memo fed by a local must agree on every branch
+        env["#maps"] = {norm(x.targets[0]): ("C" if norm(x.value).endswith("std_mapping_to_primitive") else "O") for x in ast.walk(f) if isinstance(x, ast.Assign)
+                        and isinstance(x.targets[0], ast.Name) and norm(x.value).endswith("mapping_to_primitive")}
         for s in [x for x in ast.walk(f) if isinstance(x, ast.Assign)]:
             v = tof(s.value, env)
             for t in s.targets:
                 if isinstance(t, ast.Name):
                     env[t.id] = v
+                    if isinstance(v, str) and v in SPACE:
+                        multi.setdefault(t.id, set()).add(v)
                 elif isinstance(t, ast.Tuple) and isinstance(v, tuple) and v[0] == "tuple":
                     for el, vv in zip(t.elts, v[1]):
                         if isinstance(el, ast.Name):
@@ -228,6 +243,12 @@ def memo_spaces(rep, M, rid):
                     continue
                 v = tof(s.value, env)
                 n_assign += 1
+                if isinstance(s.value, ast.Name) and len(multi.get(s.value.id, ())) > 1:
+                    wrong = sorted(multi[s.value.id] - {a[0]})
+                    rep.violation(rid, f"{fname}: `{norm(s)}`", f"`{s.value.id}` holds an array over the {' / '.join(SPACE[w] for w in wrong)} atoms on one branch and over the "
+                                  f"{SPACE[a[0]]} atoms on another, and is stored as the memo of the {SPACE[a[0]]} cell: equal length does not mean equal atom order (spglib lists "
+                                  "the standardised atoms of centred lattices interleaved), so letters / orbit ids end up on the wrong atoms", M.where(SA + "." + fname, s))
+                    continue
                 if isinstance(v, tuple) and v[0] == "ERR":
                     rep.violation(rid, f"{fname}: `{norm(s)}`", f"the array is derived by _get_primitive_system from an input over the "
                                   f"{SPACE.get(v[1], v[1])} atoms instead of the conventional atoms", M.where(SA + "." + fname, s))
@@ -515,6 +536,22 @@ def reset_covers_caches(rep, M, rid):
         else:
             rep.violation(rid, f"SymmetryAnalyzer memo self.{a}", f"written in {assigned[a]} and kept on the analyzer, but reset() does not re-initialise it: "
                           "after set_system(other) the analyzer answers for the previous structure", M.where(SA + "." + assigned[a]))
+    module_state(rep, M, rid)
+    # set_system(): every path to its end passes through self.reset() (an early return keeps the memos of the previous - or the same, since
+    # modified in place - structure)
+    from .cfg import CFG, walk_own
+    cfg = CFG(meth["set_system"])
+    resets = [n for n, d in cfg.g.nodes(data=True) if d["ast"] is not None and any(
+        isinstance(c, ast.Call) and isinstance(c.func, ast.Attribute) and c.func.attr == "reset" and norm(c.func.value) == "self" for c in walk_own(d["ast"]))]
+    if not resets:
+        rep.violation(rid, "SymmetryAnalyzer.set_system", "does not call self.reset(): every memo survives a change of the analysed structure", M.where(SA + ".set_system"))
+    elif cfg.all_paths_pass(cfg.entry, cfg.exit, resets):
+        rep.ok(rid, "set_system() calls reset() on every path")
+    else:
+        early = [d["ast"] for n, d in cfg.g.nodes(data=True) if isinstance(d["ast"], ast.Return) and not cfg.all_paths_pass(cfg.entry, n, resets)]
+        rep.violation(rid, "SymmetryAnalyzer.set_system: path without reset()", "set_system can return without calling reset() (early return): the caller's Atoms object is "
+                      "mutable, so when the same object is edited in place (strain, substitution) and set again, the analyzer keeps answering for the crystal it was before",
+                      M.where(SA + ".set_system", early[0] if early else None))
     # memo-key completeness: a method with parameters must not return a memo that ignores them
     for name, f in meth.items():
         ps = [a.arg for a in f.args.args[1:] + f.args.kwonlyargs]
@@ -924,3 +961,65 @@ def tables_read_only(rep, M, rid):
         raise AnalysisError("no function reads the built-in symmetry tables")
     if not n_sites:
         rep.ok(rid, f"{n_funcs} functions read the built-in tables; none modifies an object obtained from them")
+
+
+# ----------------------------------------------------------------------------- no result is kept in module-level state
+def module_state(rep, M, rid, prefix="matid."):
+    """no function writes into a module-level object (a dict / list / array defined at import time): such a memo or buffer makes a result
+    depend on what the process analysed before, and nothing invalidates it when the inputs change"""
+    n_mod = n_fn = 0
+    hits = []
+    for mname, tree in M.mods.items():
+        if not mname.startswith(prefix.rstrip(".")):
+            continue
+        n_mod += 1
+        top = set()
+        for st in tree.body:
+            if isinstance(st, (ast.Assign, ast.AnnAssign)):
+                for t in (st.targets if isinstance(st, ast.Assign) else [st.target]):
+                    for x in ast.walk(t):
+                        if isinstance(x, ast.Name):
+                            top.add(x.id)
+        if not top:
+            continue
+        for fn in [f for f in ast.walk(tree) if isinstance(f, ast.FunctionDef)]:
+            n_fn += 1
+            local = {a.arg for a in fn.args.posonlyargs + fn.args.args + fn.args.kwonlyargs}
+            globs = {g for s2 in ast.walk(fn) if isinstance(s2, ast.Global) for g in s2.names}
+            for s2 in ast.walk(fn):
+                if isinstance(s2, ast.Assign):
+                    for t in s2.targets:
+                        for x in ast.walk(t):
+                            if isinstance(x, ast.Name) and isinstance(x.ctx, ast.Store) and x.id not in globs:
+                                local.add(x.id)
+                if isinstance(s2, (ast.For, ast.comprehension)):
+                    for x in ast.walk(s2.target):
+                        if isinstance(x, ast.Name):
+                            local.add(x.id)
+            shared = (top - local) | (top & globs)
+            for s2 in ast.walk(fn):
+                if isinstance(s2, (ast.Assign, ast.AugAssign)):
+                    for t in (s2.targets if isinstance(s2, ast.Assign) else [s2.target]):
+                        base = t
+                        while isinstance(base, (ast.Subscript, ast.Attribute)):
+                            base = base.value
+                        if isinstance(base, ast.Name) and base.id in shared and (t is not base or base.id in globs):
+                            hits.append((mname, fn.name, s2, base.id))
+                if isinstance(s2, ast.Call) and isinstance(s2.func, ast.Attribute) and s2.func.attr in _TAB_MUT | {"fill", "resize", "cache_clear"}:
+                    base = s2.func.value
+                    while isinstance(base, (ast.Subscript, ast.Attribute)):
+                        base = base.value
+                    if isinstance(base, ast.Name) and base.id in shared:
+                        hits.append((mname, fn.name, s2, base.id))
+            # functools caches on functions are module state as well
+            for dec in fn.decorator_list:
+                dn = ast.unparse(dec)
+                if "lru_cache" in dn or dn.endswith("cache") or dn.endswith("cache()"):
+                    hits.append((mname, fn.name, dec, dn))
+    rep.count("modules_scanned_for_shared_state", n_mod)
+    for mname, fname, node, what in hits:
+        rep.violation(rid, f"{mname.replace('matid.', '')}.{fname}: `{norm(node)[:60]}`", f"writes into / memoises in the module-level object `{what}`: the value is shared by every call "
+                      "in the process and is never invalidated, so a result depends on which structures (or parameters) were analysed before - a second, different input with the same "
+                      "memo key gets the answer of the first", f"{mname.replace('.', '/')}.py:{getattr(node, 'lineno', 0)}")
+    if not hits:
+        rep.ok(rid, f"no function of the {n_mod} modules writes into module-level state or memoises with functools ({n_fn} functions scanned)")
